@@ -1,0 +1,165 @@
+//go:build verif
+
+// C10: a failed install / refresh / revert leaves the snap as it was: the save/restore pairing of the
+// link step. Contracts for the deductive verifier in /verif (govc). Only compiled with -tags verif.
+
+package snapstate
+
+import (
+	"github.com/snapcore/snapd/overlord/snapstate/sequence"
+	"github.com/snapcore/snapd/snap"
+)
+
+// ---- how many of the saved revisions were discarded meanwhile ------------------------------------------
+
+// number of positions k < j of the sequence that hold revision rev
+//@ func specOcc
+//@   pure
+//@   decreases j
+func specOcc(rev snap.Revision, sis []*sequence.RevisionSideState, j int) int {
+	if j <= 0 || j > len(sis) {
+		return 0
+	}
+	if sis[j-1].Snap.Revision == rev {
+		return specOcc(rev, sis, j-1) + 1
+	}
+	return specOcc(rev, sis, j-1)
+}
+
+// number of pairs (i, k), i < n, with revisions[i] at position k of the sequence
+//@ func specFound
+//@   pure
+//@   decreases n
+func specFound(revisions []snap.Revision, sis []*sequence.RevisionSideState, n int) int {
+	if n <= 0 || n > len(revisions) {
+		return 0
+	}
+	return specFound(revisions, sis, n-1) + specOcc(revisions[n-1], sis, len(sis))
+}
+
+//@ func countMissingRevs
+//@   props C10
+//@   ensures [count] result == len(revisions) - specFound(revisions, revSideInfos, len(revisions))
+//@   loop 0: invariant -1 <= idx0 && idx0 < len(revisions) && found == specFound(revisions, revSideInfos, idx0 + 1)
+//@   loop 1: invariant 0 <= idx0 && idx0 < len(revisions) && -1 <= idx1 && idx1 < len(revSideInfos)
+//@   loop 1: invariant found == specFound(revisions, revSideInfos, idx0) + specOcc(rev, revSideInfos, idx1 + 1) && rev == revisions[idx0]
+
+// no revision number is kept twice (type invariant of revision sequences, not established here)
+//@ define noDupRevs(sis []*sequence.RevisionSideState) = forall a int, b int :: {sis[a], sis[b]} 0 <= a && a < b && b < len(sis) ==> sis[a].Snap.Revision.N != sis[b].Snap.Revision.N
+
+// in a sequence without duplicates a revision is counted at most once, and only if it is there
+//@ func lemOccAtMostOnce
+//@   lemma
+//@   props C10
+//@   requires 0 <= j && j <= len(sis) && noDupRevs(sis)
+//@   ensures 0 <= specOcc(rev, sis, j) && specOcc(rev, sis, j) <= 1
+//@   ensures specOcc(rev, sis, j) == 1 ==> exists k int :: 0 <= k && k < j && sis[k].Snap.Revision.N == rev.N
+//@   ensures specOcc(rev, sis, j) == 0 ==> forall k int :: {sis[k]} 0 <= k && k < j ==> sis[k].Snap.Revision.N != rev.N
+//@   decreases j
+func lemOccAtMostOnce(rev snap.Revision, sis []*sequence.RevisionSideState, j int) {
+	if j <= 0 {
+		return
+	}
+	lemOccAtMostOnce(rev, sis, j-1)
+}
+
+// so the number of missing revisions is between 0 and the number of saved ones: undoLinkSnap's adjusted
+// old-candidate-index stays within 0 .. old-candidate-index
+//@ func lemFoundBounds
+//@   lemma
+//@   props C10
+//@   requires 0 <= n && n <= len(revisions) && noDupRevs(sis)
+//@   ensures 0 <= specFound(revisions, sis, n) && specFound(revisions, sis, n) <= n
+//@   decreases n
+func lemFoundBounds(revisions []snap.Revision, sis []*sequence.RevisionSideState, n int) {
+	if n <= 0 {
+		return
+	}
+	lemFoundBounds(revisions, sis, n-1)
+	lemOccAtMostOnce(revisions[n-1], sis, len(sis))
+}
+
+// nothing was discarded since link-snap (every saved revision is still kept, once): nothing is missing
+//@ func lemNothingMissing
+//@   lemma
+//@   props C10
+//@   requires 0 <= n && n <= len(revisions)
+//@   requires forall i int :: {revisions[i]} 0 <= i && i < n ==> specOcc(revisions[i], sis, len(sis)) == 1
+//@   ensures specFound(revisions, sis, n) == n
+//@   decreases n
+func lemNothingMissing(revisions []snap.Revision, sis []*sequence.RevisionSideState, n int) {
+	if n <= 0 {
+		return
+	}
+	lemNothingMissing(revisions, sis, n-1)
+}
+
+// every saved revision was discarded: all are missing
+//@ func lemAllMissing
+//@   lemma
+//@   props C10
+//@   requires 0 <= n && n <= len(revisions)
+//@   requires forall i int :: {revisions[i]} 0 <= i && i < n ==> specOcc(revisions[i], sis, len(sis)) == 0
+//@   ensures specFound(revisions, sis, n) == 0
+//@   decreases n
+func lemAllMissing(revisions []snap.Revision, sis []*sequence.RevisionSideState, n int) {
+	if n <= 0 {
+		return
+	}
+	lemAllMissing(revisions, sis, n-1)
+}
+
+// names for what snapSetupAndState loaded (see c13_contracts_verif.go)
+//@ ghost loadedCurrent(ref) int
+//@ ghost loadedInhibitedTime(ref) ref
+//@ ghost loadedLastRefresh(ref) ref
+
+// ---- undo of link-snap: every field is put back from the value the task carries ---------------------------
+//
+// The locals old* are filled by t.Get from the task keys "old-*" that doLinkSnap wrote (see the doLinkSnap
+// block in c13_contracts_verif.go, labels [c10-...]).
+//@ func (*SnapManager).undoLinkSnap
+//@   props C10
+//@   callpre assumed
+//@   guard store Revision.N: [current-from-task] val == oldCurrent.N
+//@   guard store SnapState.Active: [inactive-until-relinked] obj == snapst && !val
+//@   guard store SnapState.TrackingChannel: [channel-from-task] obj == snapst && val == oldChannel
+//@   guard store Flags.IgnoreValidation: [ignore-validation-from-task] val == oldIgnoreValidation
+//@   guard store Flags.TryMode: [trymode-from-task] val == oldTryMode
+//@   guard store Flags.DevMode: [devmode-from-task] val == oldDevMode
+//@   guard store Flags.JailMode: [jailmode-from-task] val == oldJailMode
+//@   guard store Flags.Classic: [classic-from-task] val == oldClassic
+//@   guard store SnapState.RefreshInhibitedTime: [inhibited-time-from-task] obj == snapst && val == oldRefreshInhibitedTime
+//@   guard store SnapState.LastRefreshTime: [last-refresh-from-task] obj == snapst && val == oldLastRefreshTime
+//@   guard store SnapState.CohortKey: [cohort-from-task] obj == snapst && val == oldCohortKey
+//@   guard store SnapState.RevertStatus: [revert-status-from-task] obj == snapst && val == oldRevertStatus && calledWith("(*Task).Get", 1, "old-revert-status")
+//@   guard call (*SnapState).LastIndex: [position-of-linked-revision] arg0 == snapst && arg1.N == snapst.Current.N
+//@   guard store SnapSequence.Revisions: [only-added-entry-removed] oldCandidateIndex < 0 && len(val) == len(oldval) - 1 && arrayOf(val) == arrayOf(oldval)
+//@   guard call countMissingRevs: [moved-back-only-on-refresh-to-kept] arg0 == oldRevsBeforeCand && arg1 == snapst.Sequence.Revisions && oldCandidateIndex >= 0 && !isRevert
+//@   guard store Revision.N: [old-candidate-back-in-place] oldCandidateIndex >= 0 && !isRevert ==> snapst.Sequence.Revisions[oldCandidateIndex].Snap.Revision.N == oldval
+//@   guard call Set: [stored] arg0 == st && arg1 == instanceNameOf(snapsup) && arg2 == snapst
+//@   guard call LinkSnap: [snapd-relinks-record-current] arg0 == oldInfo && arg2.IsUndo && called("(*SnapState).CurrentInfo")
+//@   guard call UnlinkSnap: [unlinks-the-linked-revision] arg0 == newInfo && arg1.IsUndo && arg1.FirstInstall == firstInstall
+
+// ---- unlink-current-snap and its undo: only the active flag ---------------------------------------------
+
+//@ func (*SnapManager).doUnlinkCurrentSnap
+//@   props C10
+//@   callpre assumed
+//@   guard store SnapState.Active: [inactive] obj == snapst && !val
+//@   guard call Set: [stored] arg0 == st && arg1 == instanceNameOf(snapsup) && arg2 == snapst
+
+//@ func (*SnapManager).undoUnlinkCurrentSnap
+//@   props C10
+//@   callpre assumed
+//@   guard store SnapState.Active: [active-again] obj == snapst && val
+//@   guard call LinkSnap: [relinks-record-current] arg0 == oldInfo && arg2.IsUndo && !arg2.FirstInstall && called("(*SnapState).CurrentInfo")
+//@   guard call Set: [stored-after-relink] arg0 == st && arg1 == instanceNameOf(snapsup) && arg2 == snapst && called("LinkSnap")
+
+// ---- undo of mount-snap ------------------------------------------------------------------------------------
+
+//@ func (*SnapManager).undoMountSnap
+//@   props C10
+//@   callpre assumed
+//@   guard call UndoSetupSnap: [of-the-task-setup] called("TaskSnapSetup") && arg1 == typ
+//@   guard call RemoveSnapDir: [after-unmount] called("UndoSetupSnap") && arg1 == otherInstances
